@@ -2,6 +2,8 @@
   Driver for the rekey bookkeeping model (C10).  One request = one whole trace:
     run <rp> <rb> <op> <ob> <ops…>     ops: s<len> r<len> o (set_outbound) i (set_inbound) t (loop top) k (peer KEXINIT)
     readall <need 0/1> <check_rekey 0/1> <n> <events: d<k> | t …>   → ok <events used> | rekey <bytes lost> | eof <bytes got>
+    comp <none|zlib|delayed> <o (NEWKEYS sent) | i (NEWKEYS received) | a (_auth_trigger) …>
+        → <installsOut> <installsIn> <compOutGen|-> <compInGen|-> <outGen> <inGen>
   reply of run: one character per op (0 nothing pending, 1 rekey requested, E overflow error raised; ops after an
   error are not executed and print E), then
   <sentP> <sentB> <recvP> <recvB> <ovP> <ovB> <initCount> <inKex> <kexInits>
@@ -32,8 +34,23 @@ def showRead : ReadResult → String
   | .needRekey l => s!"rekey {l}"
   | .eof g => s!"eof {g}"
 
+def parseCOp : String → Option COp
+  | "o" => some .newkeysOut | "i" => some .newkeysIn | "a" => some .auth | _ => none
+
+def parseComp : String → Option Comp
+  | "none" => some .none | "zlib" => some .zlib | "delayed" => some .delayed | _ => none
+
+def showOpt : Option Nat → String
+  | none => "-" | some n => toString n
+
 def stepLine (line : String) : String :=
   match words line with
+  | "comp" :: c :: ops =>
+    match parseComp c, ops.mapM parseCOp with
+    | some c, some ops =>
+      let s := crun { comp := c } ops
+      s!"{s.installsOut} {s.installsIn} {showOpt s.compOutGen} {showOpt s.compInGen} {s.outGen} {s.inGen}"
+    | _, _ => "bad-op"
   | "readall" :: need :: check :: n :: evs =>
     match need.toNat?, check.toNat?, n.toNat?, evs.mapM parseEv with
     | some need, some check, some n, some evs => showRead (readAll (need == 1) (check == 1) n 0 0 evs)
